@@ -52,8 +52,12 @@ func (w *c03) step(t []string) string {
 	switch t[0] {
 	case "new":
 		need(t, 3)
-		if atoi(t[2]) == 0 {
+		switch atoi(t[2]) {
+		case 0:
 			return w.put(atoi(t[1]), make(maps.Set[int]))
+		case 2: // the zero value of maps.Set: a nil map (readable, usable as receiver of the non-mutating methods and as argument)
+			var zero maps.Set[int]
+			return w.put(atoi(t[1]), zero)
 		}
 		return w.put(atoi(t[1]), &sync2.Set[int]{})
 	case "fromslice":
